@@ -212,6 +212,44 @@ class DISPENSO_CACHELINE_ALIGNED ThreadPool {
    **/
   DISPENSO_DLL_ACCESS ~ThreadPool();
 
+#if defined(DISPENSO_VERIF)
+  // Read-only accessors for verification monitors.  They never modify pool state.
+  ssize_t verifWorkRemaining() const {
+    return workRemaining_.load(std::memory_order_relaxed);
+  }
+  int32_t verifNumNotWorking() const {
+    return numNotWorking_.load(std::memory_order_relaxed);
+  }
+  int32_t verifNumSleeping() const {
+    auto* ws = wakeState_.load(std::memory_order_relaxed);
+    return ws ? ws->totalSleeping() : 0;
+  }
+  size_t verifNumRings() const {
+    return numRings_.load(std::memory_order_relaxed);
+  }
+  // Number of per-thread rings with index >= the published ring count that hold a task.
+  size_t verifRingsNonEmptyBeyond() {
+    size_t n = numRings_.load(std::memory_order_acquire);
+    size_t total = rings_.size();
+    size_t nonEmpty = 0;
+    for (size_t i = n; i < total; ++i) {
+      nonEmpty += rings_[i].empty() ? 0 : 1;
+    }
+    return nonEmpty;
+  }
+  // Approximate number of tasks sitting in any queue tier.
+  size_t verifQueuedApprox() {
+    size_t q = work_.size_approx();
+    for (size_t i = 0; i < rings_.size(); ++i) {
+      q += rings_[i].empty() ? 0 : 1;
+    }
+    for (size_t i = 0; i < stealRings_.size(); ++i) {
+      q += stealRings_[i].empty() ? 0 : 1;
+    }
+    return q;
+  }
+#endif // DISPENSO_VERIF
+
  private:
   class PerThreadData {
    public:
@@ -580,6 +618,7 @@ inline void ThreadPool::forceEnqueue(F&& f, moodycamel::ProducerToken* token) {
     f();
     return;
   }
+  DISPENSO_VERIF_POINT(::dispenso::verif::kPoolForceEnqueueAfterSizeTest);
   workRemaining_.fetch_add(1, std::memory_order_release);
   if (kPlaced) {
     scheduleImplPlaced({std::forward<F>(f)}, token);
@@ -654,6 +693,7 @@ inline void ThreadPool::schedulePlaced(moodycamel::ProducerToken& token, F&& f, 
 
 DISPENSO_INLINE void ThreadPool::scheduleImpl(OnceFunction task, moodycamel::ProducerToken* token) {
   enqueueToCentralQueue(std::move(task), token);
+  DISPENSO_VERIF_POINT(::dispenso::verif::kPoolSchedAfterEnqueue);
 
   // Wake when pending work exceeds awake threads. Each schedule()
   // call wakes at most one sleeper — matching baseline's wake-per-task
@@ -684,10 +724,12 @@ DISPENSO_INLINE void ThreadPool::scheduleImplPlaced(
     if (sleeping > 0 &&
         numNotWorking_.load(std::memory_order_relaxed) - sleeping < kSpinnerWakeThreshold) {
       int32_t wokeThread = ws->claimAndWakeOne();
+      DISPENSO_VERIF_POINT(::dispenso::verif::kPoolPlacedAfterClaim);
       if (wokeThread >= 0) {
         size_t stealIdx = static_cast<size_t>(wokeThread) / stealRingSharing_;
         if (stealIdx < numStealRings_.load(std::memory_order_relaxed) &&
             stealRings_[stealIdx].try_push(std::move(task))) {
+          DISPENSO_VERIF_POINT(::dispenso::verif::kPoolPlacedAfterPush);
           if (stealIdx < kMaxStealRings) {
             stealRingsWithWork_.fetch_or(uint64_t{1} << stealIdx, std::memory_order_release);
           }
@@ -774,6 +816,7 @@ DISPENSO_INLINE bool ThreadPool::tryFindAndExecuteWork(
         return true;
       }
       // Empty on observation; clear flag (relaxed, plain store).
+      DISPENSO_VERIF_POINT(::dispenso::verif::kPoolFindBeforeHintClear);
       centralQueueNonEmpty_.store(false, std::memory_order_relaxed);
     }
     if (!myStealRing.empty() && myStealRing.try_pop(task)) {
@@ -833,6 +876,7 @@ DISPENSO_INLINE void ThreadPool::scheduleBulkToRingsFastPath(
   bool useCascade = enableEpochWaiter_.load(std::memory_order_acquire) && wsCascade &&
       wsCascade->totalSleeping() > 0;
   for (size_t ring = 0; ring < count && ring < ringCount; ++ring) {
+    DISPENSO_VERIF_POINT(::dispenso::verif::kPoolBulkRingsBetweenPush);
     OnceFunction task = gen(ring);
     int32_t target = useCascade
         ? wsCascade->cascadeTargetFor(static_cast<int32_t>(ring), static_cast<int32_t>(count))
@@ -909,6 +953,7 @@ void ThreadPool::scheduleBulkToRings(
   // resizeLocked so we observe the freshly-constructed rings, not merely the
   // updated count.
   size_t ringCount = numRings_.load(std::memory_order_acquire);
+  DISPENSO_VERIF_POINT(::dispenso::verif::kPoolBulkRingsAfterCount);
   size_t tasksPerRing = (count + ringCount - 1) / ringCount;
 
   if (tasksPerRing <= 1) {
